@@ -5,10 +5,10 @@
 import os, sys
 sys.path.insert(0, os.path.join(os.environ.get("AIOFTP_REPO", "/repo"), "src"))
 OBLIGATION = 'rt:c09/upload/places-the-tree-at-the-documented-destination[other]'
-MODEL = {'kind': 'upload', 'tree': 1, 'dest': '', 'write_into': False, 'cwd': ''}
+MODEL = {'kind': 'upload', 'tree': 2, 'dest': '', 'write_into': False, 'cwd': 'w'}
 SOLVER_NOTE = 'found by the bounded run-time contract checker on the real code'
 
 import json, subprocess
-inp = {'kind': 'upload', 'tree': 1, 'dest': '', 'write_into': False, 'cwd': ''}
+inp = {'kind': 'upload', 'tree': 2, 'dest': '', 'write_into': False, 'cwd': 'w'}
 p = subprocess.run(["/venv/bin/python", '/verif/rt/c09_rt.py', "replay", json.dumps(inp)], capture_output=True, text=True, env=dict(os.environ))
 print(p.stdout.strip() or p.stderr.strip())
